@@ -18,7 +18,7 @@ HERE = os.path.dirname(os.path.dirname(os.path.abspath(__file__)))
 REPO = os.environ.get("REPO", "/repo")
 GOENV = dict(os.environ, GOFLAGS="-mod=mod", GOPROXY="off", GOSUMDB="off", GOTOOLCHAIN="local")
 ALL_CMDS = ["inorun", "opsrun", "diffrun", "kqrun"]
-RACE_CMDS = ["inostress"]
+RACE_CMDS = ["inostress", "kqstress"]
 JOBS = int(os.environ.get("VERIF_JOBS", "12"))
 
 
